@@ -121,6 +121,16 @@ func producerArgLists() [][]interface{} {
 		{nil, []interface{}{1, "a\n" + mStart}, 2.5},
 		{-1, 2, redact.RedactableString(mStart + "x" + mEnd + "\n")},
 		{map[string]string{mStart + "k\n": "\x80\xb9"}, panStrT{"p\n" + mEnd}, redact.Safe("s" + mStart + "\n")},
+		// every operand class that switches the buffer mode in its own way FIRST, so that the shortest programs
+		// ("%v" + a literal with a marker) already see what it leaves behind
+		{redact.RedactableString("r" + mStart + "x" + mEnd), "u" + mEnd, 1},
+		{redact.RedactableBytes(mStart + "y" + mEnd), redact.RedactableString(""), "u"},
+		{[]interface{}{redact.RedactableString(mStart + "x" + mEnd)}, 4, "v\n"},
+		{redact.Safe("s"), redact.Unsafe(redact.RedactableString(mStart + "x" + mEnd)), "w"},
+		{redact.Unsafe("u" + mStart), redact.Safe(errT{"e"}), 2},
+		{safeFmtT{"k", "sec" + mEnd}, safeMsgT{"m"}, "t"},
+		{panStrT{"p" + mStart}, redact.RedactableString("a"), nil},
+		{errT{"e\n"}, strT{"s" + mEnd}, fmtWST{"f"}},
 	}
 }
 
